@@ -304,6 +304,11 @@ class MosekWrapper(Wrapper):
         tau = xx[self.objective.counter]
         self.optimal_F = xx
         problem_status = self.task.getprosta(mosek.soltype.itr)
+
+        # There is no finite optimal value when MOSEK returns a certificate of infeasibility or unboundedness.
+        solution_status = self.task.getsolsta(mosek.soltype.itr)
+        if solution_status in [mosek.solsta.prim_infeas_cer, mosek.solsta.dual_infeas_cer]:
+            tau = None
         return problem_status, self.solver_name, tau
 
     def prepare_heuristic(self, wc_value, tol_dimension_reduction):
